@@ -735,7 +735,12 @@ def run(ctx: C.Ctx):
                  'field names outside canonical snake_case (leading / trailing / doubled underscores, dunder-like, `class_` next to '
                  '`class`-like siblings, digit-only words) under every dump key transform, reference = the documented transforms in full; '
                  'histories in which the first dump / load of a class fails inside the per-class setup (a string annotation names a class '
-                 'defined only afterwards) and is repeated, with alias / dump=False / skip_if / CatchAll declarations on the other fields.')
+                 'defined only afterwards) and is repeated, with alias / dump=False / skip_if / CatchAll declarations on the other fields; '
+                 'values that are class objects (positions annotated type / Type[Any] / Any, also as container elements and mapping keys: '
+                 'builtin, plain, Enum, NamedTuple and dataclass classes incl. the class being dumped; reference str(cls); oracle only); '
+                 'the route by which a dump setting reaches a class: classes that are their own dumper (DumpMixin before / after the wizard '
+                 'base, inner Meta) and a process-wide module-level Meta declared before / after the (unused) classes, each such case in a '
+                 'forked child, reference = own setting, else the main class\'s, else the global one.')
     n = ctx.quick(1500, 20000)
     reqs, pend = [], []
     _probe_tz(ctx)
